@@ -8,6 +8,10 @@
 export GOFLAGS=-mod=mod GOPROXY=off GOSUMDB=off GOTOOLCHAIN=local
 V=/verif; pat="${1:-}"; fail=0; n=0; det=0
 if [ -n "$(git -C /repo status --porcelain)" ]; then echo "selftest: /repo working tree is not clean"; exit 2; fi
+# evidence files describe the unchanged tree: put them back afterwards (a run on a mutated
+# tree leaves a record with undischarged obligations)
+save=$(mktemp -d /var/tmp/evidence-save.XXXXXX); cp -a $V/evidence/. "$save"/
+trap 'cp -a "$save"/. $V/evidence/; rm -rf "$save"' EXIT
 for p in $V/selftest/mutants/*.patch; do
   name=$(basename $p .patch); [[ "$name" == *"$pat"* ]] || continue
   read prop expect < $V/selftest/mutants/$name.expect
